@@ -46,6 +46,106 @@ m("rotate_axis-no-normalisation", ["C10", "C02"], C + "spatial/rotate_axis.py",
   "    ux = x1 / norm\n", "    ux = x1\n")
 m("rotateY-sign", ["C10", "C02"], C + "spatial/rotateY.py", None, None)  # filled below
 
+# ---- C11
+m("planar-subtract-rhophi-missing-pi", ["C11", "C01"], C + "planar/subtract.py", "    diff = phi2 - phi1 + lib.pi\n", "    diff = phi2 - phi1\n")
+m("cross-sign-error", ["C11", "C02"], C + "spatial/cross.py", "x1 * y2 - y1 * x2)", "x1 * y2 + y1 * x2)")
+m("unit-rhophi_z-z-not-normalised", ["C11", "C01", "C02"], C + "spatial/unit.py",
+  "        phi,\n        lib.nan_to_num(z / norm, nan=0, posinf=inf, neginf=-inf),", "        phi,\n        z,")
+m("planar-scale-negative-no-turn", ["C11", "C01"], C + "planar/scale.py", "    turn_if_negative = -0.5 * (sign - 1) * lib.pi", "    turn_if_negative = 0.0 * (sign - 1) * lib.pi")
+# ---- C12
+m("equal-xy-disjunction", ["C12"], C + "planar/equal.py", "    return (x1 == x2) & (y1 == y2)", "    return ((x1 == x2) + (y1 == y2)) > 0")
+m("isclose-rtol-atol-swapped", ["C12"], C + "planar/isclose.py",
+  "    return lib.isclose(x1, x2, rtol, atol, equal_nan) & lib.isclose(\n        y1, y2, rtol, atol, equal_nan\n    )",
+  "    return lib.isclose(x1, x2, atol, rtol, equal_nan) & lib.isclose(\n        y1, y2, atol, rtol, equal_nan\n    )")
+m("lorentz-equal-ignores-t", ["C12"], C + "lorentz/equal.py",
+  "            return (coord14 == coord24) & spatial_equal(", "            return (coord14 == coord14) & spatial_equal(")
+# ---- C13
+m("rectify-mod-pi", ["C13", "C02"], C + "planar/deltaphi.py", "    return (phi + lib.pi) % (2 * lib.pi) - lib.pi", "    return (phi + lib.pi) % (2 * lib.pi + 0.5) - lib.pi")
+m("is_timelike-ge", ["C13"], C + "lorentz/is_timelike.py", "        ) > lib.absolute(tolerance)", "        ) > -lib.absolute(tolerance)")
+m("t2-from-tau-no-clamp", ["C13"], C + "lorentz/t2.py",
+  "    return lib.maximum(tau2.xy_z_tau(lib, x, y, z, tau) + mag2.xy_z(lib, x, y, z), 0)", "    return tau2.xy_z_tau(lib, x, y, z, tau) + mag2.xy_z(lib, x, y, z)")
+m("deltaangle-no-clamp", ["C13"], C + "spatial/deltaangle.py",
+  "    return lib.arccos(\n        lib.maximum(\n            -1, lib.minimum(1, dot.xy_z_xy_z(lib, x1, y1, z1, x2, y2, z2) / v1m / v2m)\n        )\n    )",
+  "    return lib.arccos(dot.xy_z_xy_z(lib, x1, y1, z1, x2, y2, z2) / v1m / v2m * (1 + 1e-15))")
+# ---- C03 / C16 / C18 (backends)
+m("numpy-wrap4D-passthrough-writes-operand", ["C16"], "src/vector/backends/numpy.py",
+  "            for name in _coordinate_class_to_names[_ttype(self)]:\n                out[name] = self[name]\n            return out.view(cls.ProjectionClass4D)\n\n        elif (\n            len(returns) == 3",
+  "            for name in _coordinate_class_to_names[_ttype(self)]:\n                out[name] = self[name]\n                self.view(numpy.ndarray)[name][...] = out[name] * 1.0 + 0.0 * out[name] + 1e-300\n            return out.view(cls.ProjectionClass4D)\n\n        elif (\n            len(returns) == 3")
+m("numpy-wrap3D-wrong-column", ["C03"], "src/vector/backends/numpy.py",
+  "            for name in _coordinate_class_to_names[returns[0]]:\n                out[name] = result[i]\n                i += 1\n            for name in _coordinate_class_to_names[returns[1]]:\n                out[name] = result[i]\n                i += 1\n            return out.view(cls.ProjectionClass3D)\n\n        elif (\n            len(returns) == 3\n            and isinstance(returns[0], type)\n            and issubclass(returns[0], Azimuthal)\n            and isinstance(returns[1], type)\n            and issubclass(returns[1], Longitudinal)\n            and isinstance(returns[2], type)",
+  "            for name in _coordinate_class_to_names[returns[0]]:\n                out[name] = result[i]\n                i += 1\n            for name in _coordinate_class_to_names[returns[1]]:\n                out[name] = result[i - 1]\n                i += 1\n            return out.view(cls.ProjectionClass3D)\n\n        elif (\n            len(returns) == 3\n            and isinstance(returns[0], type)\n            and issubclass(returns[0], Azimuthal)\n            and isinstance(returns[1], type)\n            and issubclass(returns[1], Longitudinal)\n            and isinstance(returns[2], type)")
+m("handler-priority-ge", ["C05", "C03"], "src/vector/_methods.py",
+  "        if handler is None or _get_handler_index(obj) > _get_handler_index(handler):", "        if handler is None or _get_handler_index(obj) >= _get_handler_index(handler):")
+m("awkward-broadcast-wrong-index", ["C03", "C18"], "src/vector/backends/awkward.py",
+  "                x if isinstance(x, ak.Array) else ak.broadcast_arrays(first, x)[1]\n                for x in result\n            ]\n\n            names = []\n            arrays = []\n            if returns[0] is AzimuthalXY:\n                names.extend([\"x\", \"y\"])\n                arrays.extend([result[0], result[1]])\n            elif returns[0] is AzimuthalRhoPhi:\n                names.extend([\"rho\", \"phi\"])\n                arrays.extend([result[0], result[1]])\n\n            if returns[1] is LongitudinalZ:\n                names.append(\"z\")\n                arrays.append(result[2])\n            elif returns[1] is LongitudinalTheta:\n                names.append(\"theta\")\n                arrays.append(result[2])\n            elif returns[1] is LongitudinalEta:\n                names.append(\"eta\")\n                arrays.append(result[2])\n\n            fields = ak.fields(self)",
+  "                x if isinstance(x, ak.Array) else ak.broadcast_arrays(first, x)[1]\n                for x in result\n            ]\n\n            names = []\n            arrays = []\n            if returns[0] is AzimuthalXY:\n                names.extend([\"x\", \"y\"])\n                arrays.extend([result[0], result[1]])\n            elif returns[0] is AzimuthalRhoPhi:\n                names.extend([\"rho\", \"phi\"])\n                arrays.extend([result[0], result[1]])\n\n            if returns[1] is LongitudinalZ:\n                names.append(\"z\")\n                arrays.append(result[2])\n            elif returns[1] is LongitudinalTheta:\n                names.append(\"eta\")\n                arrays.append(result[2])\n            elif returns[1] is LongitudinalEta:\n                names.append(\"eta\")\n                arrays.append(result[2])\n\n            fields = ak.fields(self)")
+m("awkward-exclusion-list-loses-charge", ["C18"], "src/vector/backends/awkward.py",
+  "                    if name not in _azimuthal_fields + _longitudinal_fields:", "                    if name not in _azimuthal_fields + _longitudinal_fields + (\"charge\",):")
+m("numpy-reduce_sum-rho", ["C17"], "src/vector/backends/numpy.py", "    fields[\"px\"] = numpy.sum(a.x, axis=axis, keepdims=keepdims)", "    fields[\"px\"] = numpy.sum(a.rho, axis=axis, keepdims=keepdims)")
+m("numpy-count_nonzero-omits-t", ["C17"], "src/vector/backends/numpy.py", "        is_nonzero = numpy.logical_or(is_nonzero, a.t2 != 0)", "        is_nonzero = numpy.logical_or(is_nonzero, a.z != 0)")
+m("awkward-reduce_sum-drops-with_name", ["C17"], "src/vector/backends/awkward.py", "        with_name=layout.purelist_parameter(\"__record__\"),\n    )\n\n\ndef _reduce_count(", "    )\n\n\ndef _reduce_count(")
+# ---- C04
+m("to_rhophieta-uses-theta", ["C04", "C01", "C02"], "src/vector/_methods.py",
+  "            lcoord = spatial.eta.dispatch(self)\n\n        return self._wrap_result(\n            type(self),\n            (planar.rho.dispatch(self), planar.phi.dispatch(self), lcoord),\n            [AzimuthalRhoPhi, LongitudinalEta, None],",
+  "            lcoord = spatial.theta.dispatch(self)\n\n        return self._wrap_result(\n            type(self),\n            (planar.rho.dispatch(self), planar.phi.dispatch(self), lcoord),\n            [AzimuthalRhoPhi, LongitudinalEta, None],")
+m("to_Vector4D-ignores-M", ["C04"], "src/vector/_methods.py",
+  "            t_value = next(coord for coord in (tau, m, M, mass) if coord is not None)\n        elif any(coord is not None for coord in (t, e, E, energy)):\n            t_value = next(coord for coord in (t, e, E, energy) if coord is not None)\n\n        return self._wrap_result(\n            type(self),\n            (*self.azimuthal.elements, *self.longitudinal.elements, t_value),",
+  "            t_value = next(coord for coord in (tau, m, mass, M) if coord is not None and coord is not M)\n        elif any(coord is not None for coord in (t, e, E, energy)):\n            t_value = next(coord for coord in (t, e, E, energy) if coord is not None)\n\n        return self._wrap_result(\n            type(self),\n            (*self.azimuthal.elements, *self.longitudinal.elements, t_value),")
+m("like-4D-other-returns-3D", ["C04", "C05"], "src/vector/_methods.py",
+  "        elif isinstance(other, Vector3D):\n            return self.to_Vector3D()\n        else:\n            return self.to_Vector4D()",
+  "        elif isinstance(other, Vector3D):\n            return self.to_Vector3D()\n        else:\n            return self.to_Vector3D() if isinstance(self, Vector2D) else self.to_Vector4D()")
+# ---- C05
+m("momentumnumpy3D-projection2D-generic", ["C05"], "src/vector/backends/numpy.py", "MomentumNumpy3D.ProjectionClass2D = MomentumNumpy2D", "MomentumNumpy3D.ProjectionClass2D = VectorNumpy2D")
+m("flavor_of-all", ["C05", "C03"], "src/vector/_methods.py", "    is_momentum = any(isinstance(obj, Momentum) for obj in objects)", "    is_momentum = all(isinstance(obj, Momentum) for obj in objects if isinstance(obj, Vector))")
+m("isclose-no-dimension-check", ["C05"], "src/vector/_methods.py",
+  "        from vector._compute.spatial import isclose\n\n        _maybe_same_dimension_error(self, other, self.isclose.__name__)\n", "        from vector._compute.spatial import isclose\n\n")
+# ---- C06
+m("gather-accepts-z-with-eta", ["C06"], "src/vector/backends/object.py",
+  "        if \"theta\" in coordinates or \"eta\" in coordinates:\n            raise TypeError(\"specify z= or theta= or eta=, but not more than one\")\n        longitudinal = LongitudinalObjectZ(coordinates.pop(\"z\"))",
+  "        if \"theta\" in coordinates:\n            raise TypeError(\"specify z= or theta= or eta=, but not more than one\")\n        coordinates.pop(\"eta\", None)\n        longitudinal = LongitudinalObjectZ(coordinates.pop(\"z\"))")
+m("check_names-m-to-t", ["C06", "C14"], "src/vector/backends/awkward_constructors.py",
+  "        dimension = 4\n        names.append(\"tau\")\n        columns.append(projectable[\"m\"])", "        dimension = 4\n        names.append(\"t\")\n        columns.append(projectable[\"m\"])")
+m("is_type_safe-accepts-bool", ["C06"], "src/vector/backends/object.py",
+  "        if not issubclass(type(value), numbers.Real) or isinstance(value, bool):", "        if not issubclass(type(value), numbers.Real):")
+# ---- C14
+m("pt2-returns-rho", ["C14", "C02"], "src/vector/_methods.py", "    def pt2(self) -> ScalarCollection:\n        return self.rho2", "    def pt2(self) -> ScalarCollection:\n        return self.rho")
+m("momentum4D-m-setter-stores-T", ["C14", "C15"], "src/vector/backends/object.py",
+  "    @m.setter\n    def m(self, m: float) -> None:\n        self.temporal = TemporalObjectTau(m)", "    @m.setter\n    def m(self, m: float) -> None:\n        self.temporal = TemporalObjectT(m)")
+m("numpy-getitem-no-pt-translation", ["C14", "C19"], "src/vector/backends/numpy.py",
+  "    if isinstance(where, str):\n        if is_momentum:\n            where = _repr_momentum_to_generic.get(where, where)\n        return array.view(numpy.ndarray)[where]",
+  "    if isinstance(where, str):\n        if is_momentum and where != \"pt\":\n            where = _repr_momentum_to_generic.get(where, where)\n        return array.view(numpy.ndarray)[where]")
+# ---- C15
+m("x-setter-uses-x-for-partner", ["C15"], "src/vector/backends/object.py",
+  "    @x.setter\n    def x(self, x: float) -> None:\n        self.azimuthal = AzimuthalObjectXY(x, self.y)\n\n    @property\n    def y(self) -> float:\n        return super().y\n\n    @y.setter\n    def y(self, y: float) -> None:\n        self.azimuthal = AzimuthalObjectXY(self.x, y)\n\n    @property\n    def rho(self) -> float:\n        return super().rho\n\n    @rho.setter\n    def rho(self, rho: float) -> None:\n        self.azimuthal = AzimuthalObjectRhoPhi(rho, self.phi)\n\n    @property\n    def phi(self) -> float:\n        return super().phi\n\n    @phi.setter\n    def phi(self, phi: float) -> None:\n        self.azimuthal = AzimuthalObjectRhoPhi(self.rho, phi)\n\n    @property\n    def z(self)",
+  "    @x.setter\n    def x(self, x: float) -> None:\n        self.azimuthal = AzimuthalObjectXY(x, self.x)\n\n    @property\n    def y(self) -> float:\n        return super().y\n\n    @y.setter\n    def y(self, y: float) -> None:\n        self.azimuthal = AzimuthalObjectXY(self.x, y)\n\n    @property\n    def rho(self) -> float:\n        return super().rho\n\n    @rho.setter\n    def rho(self, rho: float) -> None:\n        self.azimuthal = AzimuthalObjectRhoPhi(rho, self.phi)\n\n    @property\n    def phi(self) -> float:\n        return super().phi\n\n    @phi.setter\n    def phi(self, phi: float) -> None:\n        self.azimuthal = AzimuthalObjectRhoPhi(self.rho, phi)\n\n    @property\n    def z(self)")
+m("replace_data-eta-into-theta-slot", ["C15"], "src/vector/backends/object.py",
+  "            obj.longitudinal = LongitudinalObjectTheta(result.theta)", "            obj.longitudinal = LongitudinalObjectTheta(result.eta)")
+m("isub-calls-add", ["C15", "C11"], "src/vector/backends/object.py",
+  "        return _replace_data(self, numpy.subtract(self, other))", "        return _replace_data(self, numpy.add(self, other))")
+# ---- C19
+m("getitem-temporal-uses-ltype-names", ["C19"], "src/vector/backends/numpy.py",
+  "                *(out[x] for x in _coordinate_class_to_names[_ttype(array)])", "                *(out[x] for x in _coordinate_class_to_names[_ltype(array)])")
+m("reduce-drops-dict", ["C19"], "src/vector/backends/numpy.py",
+  "        new_state = (*pickled_state[2], self.__dict__)", "        new_state = (*pickled_state[2], {})")
+m("object3D-array-momentum-class", ["C19"], "src/vector/backends/object.py",
+  "        from vector.backends.numpy import VectorNumpy3D\n\n        return VectorNumpy3D(", "        from vector.backends.numpy import MomentumNumpy3D as VectorNumpy3D\n\n        return VectorNumpy3D(")
+# ---- C20
+m("dispatch-seterr-without-restore", ["C20"], C + "spatial/deltaR.py",
+  "    with numpy.errstate(all=\"ignore\"):\n", "    numpy.seterr(all=\"ignore\")\n    if True:\n")
+m("array-constructor-updates-global-behavior", ["C20"], "src/vector/backends/awkward_constructors.py",
+  "    is_momentum, dimension, names, arrays = _check_names(akarray, fields.copy())\n", "    is_momentum, dimension, names, arrays = _check_names(akarray, fields.copy())\n    awkward.behavior.update(vector.backends.awkward.behavior)\n")
+m("compute-path-silences-warnings", ["C20"], C + "lorentz/rapidity.py",
+  "    with numpy.errstate(all=\"ignore\"):\n", "    import warnings\n\n    warnings.simplefilter(\"ignore\")\n    with numpy.errstate(all=\"ignore\"):\n")
+# ---- C07
+m("numba-binary-coord12-uses-getcoord1", ["C07"], "src/vector/backends/_numba_object.py",
+  "        elif min_dimension == 3:\n            if groupname is None:\n                groupname = \"spatial\"\n            coord11 = getcoord1[numba_aztype(v1)]\n            coord12 = getcoord2[numba_aztype(v1)]",
+  "        elif min_dimension == 3:\n            if groupname is None:\n                groupname = \"spatial\"\n            coord11 = getcoord1[numba_aztype(v1)]\n            coord12 = getcoord1[numba_aztype(v1)]")
+m("numba-mag2-property-bound-to-mag", ["C07"], "src/vector/backends/_numba_object.py",
+  'spatial_properties = ["z", "theta", "eta", "costheta", "cottheta", "mag", "mag2"]', 'spatial_properties = ["z", "theta", "eta", "costheta", "cottheta", "mag"]\nSPATIAL_ALIAS_BUG = True')
+# ---- C08
+m("sympylib-arctan2-swapped", ["C08"], "src/vector/_lib.py", "        return sympy.atan2(val1, val2)", "        return sympy.atan2(val2, val1)")
+m("sympylib-exp-is-log", ["C08"], "src/vector/_lib.py", "        return sympy.exp(val)", "        return sympy.log(val)")
+
 
 def _fill():
     # rotateY: flip one sign in the Cartesian kernel (text looked up at make time)
